@@ -74,6 +74,8 @@ structure Ghost where
   nBytes : Nat := 0
   nChunks : Nat := 0
   pushed : Array GChunk := #[]
+  idxOf : Std.HashMap Nat Nat := {}          -- chunk id → index in `pushed`
+  nzQueued : Nat := 0                        -- queued chunks with len ≠ 0
   everPopped : Std.HashMap Nat Unit := {}
   lastPop : Option GChunk := none
   okPops : Nat := 0
@@ -151,11 +153,12 @@ def Ghost.push (g : Ghost) (c : GChunk) : Ghost :=
   let q := g.queue c.sid
   let c := { c with pushIdx := g.pushed.size, popsAtPush := g.okPops, nzPopsAtPush := g.nzPops,
                     depth := q.length, bytesAhead := (q.foldl (fun a x => a + x.len) 0) + c.len,
-                    nzQueuedAtPush := g.queues.foldl (fun a kv => a + (kv.2.filter (·.len != 0)).length) 0 }
+                    nzQueuedAtPush := g.nzQueued }
   let wasBacklogged := !q.isEmpty
   let g := { g with
     queues := insert g.queues c.sid (q ++ [c]), nBytes := g.nBytes + c.len, nChunks := g.nChunks + 1,
-    pushed := g.pushed.push c,
+    pushed := g.pushed.push c, idxOf := g.idxOf.insert c.id g.pushed.size,
+    nzQueued := g.nzQueued + (if c.len != 0 then 1 else 0),
     sids := if g.sids.contains c.sid then g.sids else g.sids ++ [c.sid],
     lmax := insert g.lmax c.sid (max (g.lmaxOf c.sid) c.len),
     pushedSinceCached := g.cached.isSome || g.pushedSinceCached }
@@ -187,7 +190,7 @@ def popsSince (g : Ghost) (c : GChunk) : Nat :=
 
 /-- the implementation popped chunk `id` successfully. Returns the first violated clause. -/
 def Ghost.pop (g : Ghost) (id : Nat) : Ghost × Option String := Id.run do
-  let some c := g.pushed.find? (·.id == id)
+  let some c := (g.idxOf.get? id).bind (g.pushed[·]?)
     | return ({ g with tainted := true }, some s!"FIFO: popped chunk {id} was never pushed")
   if g.everPopped.contains id then
     return ({ g with tainted := true }, some s!"FIFO: chunk {id} popped twice")
@@ -259,7 +262,7 @@ def Ghost.pop (g : Ghost) (id : Nat) : Ghost × Option String := Id.run do
   -- commit
   g := { g with
     queues := insert g.queues c.sid (q.filter (·.id != id)),
-    nBytes := g.nBytes - c.len, nChunks := g.nChunks - 1,
+    nBytes := g.nBytes - c.len, nChunks := g.nChunks - 1, nzQueued := g.nzQueued - (if c.len != 0 then 1 else 0),
     everPopped := g.everPopped.insert id (), lastPop := some c,
     okPops := served.okPops, nzPops := served.nzPops,
     cached := none, pushedSinceCached := false }
